@@ -12,6 +12,7 @@ mod channel;
 mod iterconc;
 mod entries;
 mod flags;
+mod pipes;
 
 #[global_allocator]
 static GLOBAL: sched::CountingAlloc = sched::CountingAlloc;
@@ -29,6 +30,7 @@ fn main() {
         "iterconc" => iterconc::main(),
         "entries" => entries::main(),
         "flags" => flags::main(),
+        "pipes" => pipes::main(),
         "channel-table" => channel::table_main(),
         "channel-stress" => channel::stress_main(),
         _ => {
